@@ -225,7 +225,7 @@ func c28AgentCaseOpts(r *verifkit.R, phase string, ci int, rng *verifkit.Rand, d
 			if c == nil {
 				return "absent"
 			}
-			return c28Family(c.Class)
+			return c28KeyFamily(c)
 		}
 		if sleeps > 0 && !sValid {
 			violation("agent:"+path+":"+cls(sc)+":slept",
